@@ -9,6 +9,7 @@ BUDGET = {'quick': {'seconds': 1200, 'xreplay_every': 40}, 'thorough': {'seconds
 NONTRIVIAL = {'quick': ['buffer-reused', 'resumed', 'resumed-expiry', 'expiry', 'no-expiry', 'second-expiry', 'third-expiry', 'dup-on-repeat', 'v31-dup', 'spacing', 'monotone-gap', 'interleaved']}
 
 REQS = ('pub1', 'pub2', 'pubrel', 'sub', 'unsub')
+EPS = Fraction(1, 10 ** 6)      # slack for float rounding in concrete replays (time comparisons only)
 TYPE = {'pub1': 'PUBLISH', 'pub2': 'PUBLISH', 'pubrel': 'PUBREL', 'sub': 'SUBSCRIBE', 'unsub': 'UNSUBSCRIBE'}
 
 
@@ -56,7 +57,8 @@ def h_retry(eng, params):
         if kind == 'pubrel':
             flow.rx('PUBREC', msgId=tr.msgId)
     elif kind == 'sub':
-        r = flow.subscribe('list', qos=1)
+        shape = eng.choose(('str', 'list'), 'shape')
+        r = flow.subscribe(shape, qos=eng.int('sqos', 1, 2) if shape == 'str' else 1)
         tr = r.tr
     else:
         r = flow.unsubscribe('list')
@@ -143,7 +145,7 @@ def h_retry(eng, params):
         # body after the first byte is identical
         eng.check(all_eq(raw[1:], raw0[1:]), 'bytes-changed', 'retransmitted bytes differ beyond the first byte')
         tprev = tx[i][1]
-        eng.check(t - tprev >= T, 'spacing-below-initial-timeout', 'two transmissions closer together than the configured initial timeout',
+        eng.check(t - tprev >= T - EPS, 'spacing-below-initial-timeout', 'two transmissions closer together than the configured initial timeout',
                   sig='spacing-below-initial-timeout:' + kind)
         eng.count('spacing')
     # ---- back-off: the scheduled delay minus its jitter does not shrink (PUBLISH)
@@ -154,11 +156,11 @@ def h_retry(eng, params):
         delays = [(d - t) for (t, d) in due_log]
         for i in range(1, len(delays)):
             if i + offs < len(pool) and i - 1 + offs < len(pool):
-                eng.check(delays[i] - pool[i + offs] >= delays[i - 1] - pool[i - 1 + offs], 'backoff-shrinks',
+                eng.check(delays[i] - pool[i + offs] >= delays[i - 1] - pool[i - 1 + offs] - EPS, 'backoff-shrinks',
                           'retry delay (without its random jitter) shrank from one retry to the next', sig='backoff-shrinks')
                 eng.count('monotone-gap')
     for (t, d) in due_log:
-        eng.check(d - t >= T, 'delay-below-initial-timeout', 'a retry timer was armed with less than the initial timeout', sig='delay-below-initial-timeout:' + kind)
+        eng.check(d - t >= T - EPS, 'delay-below-initial-timeout', 'a retry timer was armed with less than the initial timeout', sig='delay-below-initial-timeout:' + kind)
     return flow.finish()
 
 
@@ -211,7 +213,7 @@ def h_resume(eng, params):
             eng.check(all_eq(p['payload'], first[2]['payload']), 'content-changed', 'a resumed PUBLISH carries a different payload than its first transmission')
             eng.check(all_eq(p['topic'], first[2]['topic']), 'content-changed')
         if i > 0:
-            eng.check(t - tx2[i - 1][1] >= T, 'spacing-below-initial-timeout',
+            eng.check(t - tx2[i - 1][1] >= T - EPS, 'spacing-below-initial-timeout',
                       'after a resume, two transmissions on one connection are closer together than the initial timeout configured when the packet was first sent',
                       sig='spacing-below-initial-timeout:resumed:' + kind)
     from .c13 import is_notification
